@@ -38,4 +38,10 @@ CLAIMED = {
   "text": "In spec/Goom.tla OpenDebug/CloseDebug/OpenTrace/CloseTrace are actions that change only `lg`, and Apply records whether the replacement was wrapped by the debug interceptor; the requirement layer has no logging variable. TLC checks mechanism=>requirement with the switches interleaved everywhere (depth 4/5) and generates histories with switches at TLC-chosen points; the same behaviours are replayed under logging off, OpenDebug, OpenTrace and GOOM_DEBUG=1 (4 handle kinds), and every call result / image observation must equal the logging-free requirement. The driver counts steps performed with debug open so a vacuous run is exit 2.",
   "note": "Trusted: TLC, Go replayer. Values in this family are ints; rendering of nil pointers / nil interfaces / cyclic structures by the debug interceptor is exercised by the C01 signature zoo replayed under debug (see C01).",
  },
+ "C04": {
+  "ref": "DESIGN.md §4 C04",
+  "technique": "TLA+ spec When.tla (requirement + mechanism of clause matching) model-checked with TLC per signature class; every enumerated stub configuration built on the real API and every call tuple of the domain executed",
+  "text": "When.tla states the requirement on the flat list of actual arguments (first registered clause whose expressions all accept, else default, else 'no suitable condition' panic; receiver ignored; variadic tail element by element) and mirrors the mechanism (reflect values incl. receiver and tail slice, strip, expand the tail, length check, evaluate). For each of 8 signature classes TLC enumerates every well-formed 1-clause configuration (expressions from value / Any / In(set), In-clauses of two tuples, optional default) and random (quick) or all (thorough, tail<=1) multi-clause configurations, checks mechanism=requirement for every call tuple with tail length 0..2, and the driver builds each configuration through Return/When/In on a corpus function of that class and performs every call for real, comparing result or panic class.",
+  "note": "Trusted: TLC, Go replayer. Well-formed = default first, clauses with at least as many expressions as the function has parameters (goom's documented arity rule); When() with zero expressions and When.Eval on variadic functions are outside the statement. Argument values are small ints here; value kinds are C09/C18.",
+ },
 }
